@@ -199,6 +199,9 @@ if __name__ == "__main__":
     elif cmd == "intake4":
         for p in sys.argv[2:]:
             intake(p, "/tmp/w4_%s/seed_out" % p, "EF")
+    elif cmd == "intake5":
+        for p in sys.argv[2:]:
+            intake(p, "/tmp/w5_%s/seed_out" % p, "EF")
     elif cmd == "confirm":
         for s in sys.argv[2:]:
             confirm(s)
